@@ -1002,6 +1002,7 @@ def check_chain(ctx, esc):
     # decode: loop driven by the type announced by the previous header
     loops = [(lid, st, it) for lid, (st, it) in D.loops.items() if isinstance(st, ast.While)]
     ok = len(loops) == 1
+    tvar = []
     if ok:
         lid, st, it = loops[0]
         ups = {k: strip_ids(v) for k, v in D.loop_updates[lid].items()}
@@ -1041,10 +1042,16 @@ def check_chain(ctx, esc):
     ctx.check(ok, 'W4', 'decode: a payload chain that does not end exactly at the end of the data raises InvalidSyntax (every normal return '
               'passed the check)', key=('W4', 'end-of-data'), site=ctx.site(pp, pp.node))
     # unknown payloads
-    unk = [(rpc, rt) for rpc, rt, _ in D.raises if any(a[0][0] == 'caught' and 'KeyError' in tq.text(a[0]) and a[1] for a in rpc)]
+    # "unknown" = the registry lookup missed: KeyError caught at the lookup, or the membership test `type in type_2_payload` failed
+    known = strip_ids(D.mk_cmp('in', ('acc', tvar[0], 0), D.expr('cls.type_2_payload'))) if len(tvar) == 1 else None
+
+    def unknown(rpc):
+        return any(a[0][0] == 'caught' and 'KeyError' in tq.text(a[0]) and a[1] for a in rpc) or \
+            any(strip_ids(a[0]) == known and a[1] is False for a in rpc)
+    unk = [(rpc, rt) for rpc, rt, _ in D.raises if unknown(rpc)]
     ok = len(unk) == 1 and 'UnsupportedCriticalPayload' in tq.text(unk[0][1])
     if ok:
-        extra = [a for a in strip_ids(unk[0][0]) if a[0][0] not in ('caught',) and tq.contains(a[0], crit)]
+        extra = [a for a in strip_ids(unk[0][0]) if a[0][0] not in ('caught',) and strip_ids(a[0]) != known and tq.contains(a[0], crit)]
         ok = len(extra) == 1 and extra[0][1] is True
         # skipped otherwise: the cursor still advances by the announced length (one update for all paths)
         ok = ok and len(cur) == 1 and cur[0][3] == ln
